@@ -1718,6 +1718,7 @@ impl Block {
                                                     transaction,
                                                     output1,
                                                     input2.clone(),
+                                                    output2,
                                                     output3,
                                                 );
 
